@@ -697,6 +697,14 @@ func (h *harness) record(c *Case, ev *evaluated) {
 				}
 			}
 			nontrivial = n >= 2
+			if c.gdoc != nil {
+				if lits, vars := c.gdoc.scalarLiteralShape(); lits > 0 {
+					run.Count("doc-feature:list-or-object-literal-for-custom-scalar")
+					if vars > 0 {
+						run.Count("doc-feature:variable-inside-custom-scalar-literal")
+					}
+				}
+			}
 		} else if strings.HasPrefix(c.Stream, "mut:") {
 			if ev.lean.violates(c.Rule) {
 				run.Count("mutation-kept:" + c.Stream[4:])
@@ -821,7 +829,7 @@ func (h *harness) oblige(c *Case, ev *evaluated) {
 			run.Oblige("rule group "+g.name+" (differential only): implementation verdict vs the Lean specification's rule, no model = spec theorem yet", "oracle", 1, !groupBad, failWhat(ev))
 		}
 		if ev.lean.HasHyp {
-			run.Oblige("hypotheses of the assembly theorems hold for the case (InputOk: Schema.wf, wfDefaults, typesProper; selection sets and field nodes have pairwise distinct positions)", "assumption", 1, len(ev.lean.HypBad) == 0, "failed: "+strings.Join(ev.lean.HypBad, ", ")+" on query "+c.Query)
+			run.Oblige("hypotheses of the assembly and verdict theorems hold for the case (InputOk2: Schema.wf, wfDefaults, typesProper, argDefsUnique; selection sets and field nodes have pairwise distinct positions)", "assumption", 1, len(ev.lean.HypBad) == 0, "failed: "+strings.Join(ev.lean.HypBad, ", ")+" on query "+c.Query)
 		}
 		if ev.lean.HasModel {
 			run.Oblige("correspondence: model verdict + multiset of (message, locations) = implementation's (membership for map-iteration picks)", "correspondence", 1, fk != "correspondence", failWhat(ev))
